@@ -210,6 +210,52 @@ theorem VonMises_eq : eqB GenFacts.VonMises = true := by decide
 -- @site Skellam
 theorem Skellam_eq : eqB GenFacts.Skellam = true := by decide
 
+/-! ### Part 3 — the operation alphabet is closed
+The state machine of Part 1 has two kinds of operations on an object: its `&mut self` setters and queries on `self`
+(which fill a cache through `get_or_init`). `history_fresh` quantifies over all histories of THOSE operations; it says
+nothing about a function that writes the cache of some OTHER object (an associated function that builds a value and then
+assigns `value.cache = …`, or moves a cache out of an argument with `.take()`). The extracted fact
+`foreignCacheWrites` lists every such write found in the source of the type; the theorems below state that there is none,
+so the alphabet of Part 1 is the whole set of operations that can touch a cache. -/
+-- @site Beta
+theorem Beta_closed : GenFacts.Beta.foreignCacheWrites = [] := rfl
+-- @site BetaBinomial
+theorem BetaBinomial_closed : GenFacts.BetaBinomial.foreignCacheWrites = [] := rfl
+-- @site Gamma
+theorem Gamma_closed : GenFacts.Gamma.foreignCacheWrites = [] := rfl
+-- @site Gaussian
+theorem Gaussian_closed : GenFacts.Gaussian.foreignCacheWrites = [] := rfl
+-- @site Geometric
+theorem Geometric_closed : GenFacts.Geometric.foreignCacheWrites = [] := rfl
+-- @site InvChiSquared
+theorem InvChiSquared_closed : GenFacts.InvChiSquared.foreignCacheWrites = [] := rfl
+-- @site InvGaussian
+theorem InvGaussian_closed : GenFacts.InvGaussian.foreignCacheWrites = [] := rfl
+-- @site Kumaraswamy
+theorem Kumaraswamy_closed : GenFacts.Kumaraswamy.foreignCacheWrites = [] := rfl
+-- @site Mixture
+theorem Mixture_closed : GenFacts.Mixture.foreignCacheWrites = [] := rfl
+-- @site MvGaussian
+theorem MvGaussian_closed : GenFacts.MvGaussian.foreignCacheWrites = [] := rfl
+-- @site NegBinomial
+theorem NegBinomial_closed : GenFacts.NegBinomial.foreignCacheWrites = [] := rfl
+-- @site NormalInvChiSquared
+theorem NormalInvChiSquared_closed : GenFacts.NormalInvChiSquared.foreignCacheWrites = [] := rfl
+-- @site Poisson
+theorem Poisson_closed : GenFacts.Poisson.foreignCacheWrites = [] := rfl
+-- @site ScaledInvChiSquared
+theorem ScaledInvChiSquared_closed : GenFacts.ScaledInvChiSquared.foreignCacheWrites = [] := rfl
+-- @site Skellam
+theorem Skellam_closed : GenFacts.Skellam.foreignCacheWrites = [] := rfl
+-- @site StickSequence
+theorem StickSequence_closed : GenFacts.StickSequence.foreignCacheWrites = [] := rfl
+-- @site SymmetricDirichlet
+theorem SymmetricDirichlet_closed : GenFacts.SymmetricDirichlet.foreignCacheWrites = [] := rfl
+-- @site Uniform
+theorem Uniform_closed : GenFacts.Uniform.foreignCacheWrites = [] := rfl
+-- @site UnitPowerLaw
+theorem UnitPowerLaw_closed : GenFacts.UnitPowerLaw.foreignCacheWrites = [] := rfl
+
 end C09
 
 #print axioms C09.history_fresh
